@@ -26,6 +26,7 @@ RULE = ('histories = breadth-first closure over call sequences from the alphabet
         'One case = (model, first action); R-train is compared after every call.  Non-trivial: a '
         'history that reached an abstract state different from the initial one; distinct = '
         '(model, call sequence).')
+RULE += ('  Round 3: a Conv1d MPS model (mps-layer-1d).')
 ASSUMPTIONS = [
     'frozen components are identified independently: layers tied to a network input / output by '
     'the program-level width analysis (features) and strided convolutions (receptive field, '
